@@ -21,7 +21,7 @@ TraceNext ==
             /\ Judge(e.r.k = "err" => e.r.left_mapped = 0, "left_behind", [expected |-> d])
        ELSE IF e.op = "build"
        THEN LET x == UnixBuild(UReq(e.a)) IN
-            /\ Judge(e.r.k = x.k /\ (x.k = "err" => e.r.e = x.e), "decision", [expected |-> x])
+            /\ Judge(e.r.k = x.k /\ (x.k = "err" => e.r.e \in UnixErrSet(UReq(e.a))), "decision", [expected |-> x])
             \* an accepted request builds what was asked
             /\ Judge(e.r.k = "ok" => /\ e.r.size = (IF e.a.kind = "raw" /\ e.a.size > 8192 THEN 8192 ELSE e.a.size)
                                      /\ e.r.owned = (e.a.kind # "raw")
@@ -33,7 +33,7 @@ TraceNext ==
             \* a refused request leaves nothing mapped; an external mapping is never unmapped
             /\ Judge((e.r.k = "err" => e.r.left_mapped = 0) /\ e.r.raw_alive, "left_behind", [expected |-> x])
        ELSE LET x == XenBuild(XReq(e.a)) IN
-            /\ Judge(e.a.badflags \/ (e.r.k = x.k /\ (x.k = "err" => e.r.e = x.e)), "decision", [expected |-> x])
+            /\ Judge(e.a.badflags \/ (e.r.k = x.k /\ (x.k = "err" => e.r.e \in XenErrSet(XReq(e.a)))), "decision", [expected |-> x])
             /\ Judge((e.r.k = "ok" /\ ~e.a.badflags) => /\ e.r.size = e.a.size /\ e.r.xflags = e.a.mflags /\ e.r.xdata = 5
                                      /\ e.r.has_file = e.a.file /\ (e.a.file => e.r.foff = e.a.foff)
                                      /\ ("coherent" \in DOMAIN e.r => e.r.coherent),
